@@ -10,3 +10,15 @@ pub proof fn lemma_outputs_ada_update_last(o: Seq<TxOutputProposal>, p: Seq<TxOu
 { if n > 0 { lemma_outputs_ada_update_last(o, p, n - 1); } }
 pub proof fn lemma_outputs_ada_mono(o: Seq<TxOutputProposal>, n: int, m: int) requires 0 <= n <= m ensures outputs_ada(o, n) <= outputs_ada(o, m) decreases m
 { if n < m { lemma_outputs_ada_mono(o, n, m - 1); } }
+pub open spec fn outs_size(o: Seq<TxOutputProposal>, n: int) -> int decreases n { if n <= 0 { 0 } else { outs_size(o, n - 1) + o[n - 1].size } }
+pub open spec fn ins_size(sizes: Seq<usize>, u: Seq<UtxoIndex>, n: int) -> int decreases n { if n <= 0 { 0 } else { ins_size(sizes, u, n - 1) + sizes[u[n - 1].0 as int] } }
+pub open spec fn tx_size_spec(c: AssetCategorizer, p: TxProposal, with_fee: bool) -> int {
+    3 + CborCalculator::body_size(p.used_body_fields) + p.witnesses_calculator.full()
+      + (if p.tx_output_proposals@.len() > 0 { uint_len(p.tx_output_proposals@.len() as u64) + outs_size(p.tx_output_proposals@, p.tx_output_proposals@.len() as int) } else { 0 })
+      + (if with_fee { uint_len(p.fee.0) as int } else { 0 })
+      + uint_len(p.used_utoxs.order().len() as u64) + ins_size(c.inputs_sizes@, p.used_utoxs.order(), p.used_utoxs.order().len() as int)
+}
+pub proof fn lemma_outs_mono(o: Seq<TxOutputProposal>, n: int, m: int) requires 0 <= n <= m ensures 0 <= outs_size(o, n) <= outs_size(o, m) decreases m
+{ if m > 0 { if n < m { lemma_outs_mono(o, n, m - 1); } else { lemma_outs_mono(o, n - 1, m - 1); } } }
+pub proof fn lemma_ins_mono(sizes: Seq<usize>, u: Seq<UtxoIndex>, n: int, m: int) requires 0 <= n <= m ensures 0 <= ins_size(sizes, u, n) <= ins_size(sizes, u, m) decreases m
+{ if m > 0 { if n < m { lemma_ins_mono(sizes, u, n, m - 1); } else { lemma_ins_mono(sizes, u, n - 1, m - 1); } } }
